@@ -351,4 +351,50 @@ example : ∃ gs : List GenBlock, gs.length = 3
       (fun _ _ _ _ => Nat.mod_lt _ (by decide)) (by decide) (by decide) (by decide) (by decide)
   exact ⟨gs, by rw [h4]; decide, by rw [h5]; decide⟩
 
+/-! ## round 6: the caller's header, every field on its own
+
+`generated_received` is stated for an abstract header (`raw`: its twelve octets, with the data packet format, SAP, flags
+and addresses inside), so every combination of format and A bit is covered: the block layout is the one of the A bit.
+The two statements below make the class explicit: nothing but the A bit and the pad count of the header reaches the
+preambles and data bursts, and a pad count that is not the one of the A bit's mode is refused. -/
+
+/-- the bursts of a generated transmission other than the header burst -/
+def notHeader (b : AbsBurst) : Bool :=
+  match b.payload with
+  | .dataHeader _ => false
+  | _ => true
+
+theorem layout_from_a_bit_only (C : Crc) (raw : CsbkRaw) (r : Rate) (payload : Bytes) (gh gh' : GenHeader)
+    (k cc : Nat) (ha : gh.hdr.a = gh'.hdr.a) (hp : gh.poc = gh'.poc) :
+    (generate C raw r payload gh k cc).map (·.filter notHeader)
+      = (generate C raw r payload gh' k cc).map (·.filter notHeader) := by
+  unfold generate
+  rw [ha, hp]
+  cases genBlocks C r gh'.hdr.a payload with
+  | error e => rfl
+  | ok v =>
+    obtain ⟨blocks, pad⟩ := v
+    simp only
+    split
+    · rfl
+    · simp [Except.map, List.filter_append, notHeader]
+
+/-- a header that announces another pad octet count than is generated for the mode of its A bit is refused, whatever
+its data packet format suggests -/
+theorem wrong_pad_refused (C : Crc) (raw : CsbkRaw) (r : Rate) (payload : Bytes) (gh : GenHeader) (k cc : Nat)
+    (hpoc : gh.poc ≠ padOf r gh.hdr.a payload) :
+    generate C raw r payload gh k cc = .error .assertion := by
+  unfold generate
+  rw [genBlocks_ok]
+  have : (gh.poc != padCount (octets r gh.hdr.a).1 (octets r gh.hdr.a).2 payload.length) = true := by
+    simpa [padOf] using hpoc
+  simp only [this, if_true]
+
+/-- the data header the generator receives enters its output only as the header burst; the (format, A) = (confirmed
+data packet, A clear) combination: unconfirmed blocks -/
+example : ∃ bursts, generate crcEx (fun b => [b]) .r12 payloadEx
+      { hdr := { btf := some 2, a := false, sap := 4, raw := [0x03] }, poc := 0 } 1 1 = .ok bursts
+    ∧ bursts.length = 4 := by
+  refine ⟨_, generate_ok _ _ _ _ _ _ _ (by decide), by decide⟩
+
 end Dmr.C07
